@@ -4,7 +4,7 @@ CHECK = dict(
          "for 'exactly one result' and for handles captured in OnBoot, see known findings) on an interleaving model of the engine "
          "life cycle (Run caller, loops, main reactor, ticker, user goroutines, Register/Enroll workers; one synchronisation "
          "operation per step): control_table (the result of every control call in every phase equals the property's table and is "
-         "what the step function answers), invalid_args, no_effect_after_shutdown, double_stop_harmless, shutdown_is_final, "
+         "what the step function answers), invalid_args, client_calls_follow_state (a gnet.Client's Dial / Enroll / Stop in the states never started / running / stopped), client_dial_queued + client_dial_completes_partial (what a blocked Dial waits for), no_effect_after_shutdown, double_stop_harmless, shutdown_is_final, "
          "stop_starts_shutdown, stop_result (nil only with inShutdown set; the context's error only if the context ended; the "
          "engine stays cancelled), one_result (delivered results = the worker's counter, never more than one, one iff done), "
          "one_result_partial + registration_queued (a waiting registration's task sits in the queue of its loop and completes if "
@@ -13,8 +13,8 @@ CHECK = dict(
          "every result class, callback and hidden flag with the extracted model, plus a direct table oracle.",
     note="Known findings: Register accepted after the loops have exited and before inShutdown is set never delivers a result; "
          "the handle captured in OnBoot of a Run that returns without starting answers nil (not the empty-engine error). "
-         "context/errgroup/sync.Map/channels/ants are modelled as documented; kernel failures during start are not modelled; "
-         "Client.Stop called twice is outside the model; the vunix shim, engine_export.go and the quiescence detection of the "
+         "context/errgroup/sync.Map/channels/ants are modelled as documented; kernel failures during start are modelled separately (coq/Model/Start.v, C07); "
+         " the vunix shim, engine_export.go and the quiescence detection of the "
          "driver are trusted.",
     technique="Coq proof (inductive invariants over an executable labelled transition system with history variable; pure "
               "table functions) + differential phase scenarios on the real engine + table oracle",
